@@ -423,8 +423,8 @@ def vec_pushed_values(vec_local, fa):
             if c in ("tinyvec::ArrayVec::<A>::push", "util::data_vec::DataVec::<T, N>::push"):
                 out.append((cb, a[1]))
             elif c in ("tinyvec::ArrayVec::<A>::len", "util::data_vec::DataVec::<T, N>::len", "tinyvec::ArrayVec::<A>::iter",
-                       "util::data_vec::DataVec::<T, N>::iter"):
-                pass
+                       "util::data_vec::DataVec::<T, N>::iter") or c.endswith(" as core::ops::Deref>::deref"):
+                pass                    # read-only views
             else:
                 return None
     return out
@@ -554,6 +554,43 @@ def projection_interval(t, iv, b, depth):
                         k = t.args[1]
                         for pb, pv in pushed:
                             comp = pv.args[0][k] if pv.op == "tuple" and k < len(pv.args[0]) else None
+                            if comp is None:
+                                return None
+                            i = iv.interval(comp, pb, depth + 1)
+                            if i is None:
+                                return None
+                            acc = join(acc, i)
+                        return acc
+    # (*item).k of a by-reference iteration (`v.iter()`) over a local vector: join of the k-th component of everything pushed
+    if t.op == "memval" and t.args[0].op == "pf" and t.args[0].args[0].op == "mem":
+        it_ = t.args[0].args[0].args[0]
+        if it_.op == "field" and it_.args[1] == 0 and it_.args[0].op == "downcast" and it_.args[0].args[1] == 1 and it_.args[0].args[0].op == "call" \
+                and it_.args[0].args[0].args[0] == "<core::slice::Iter<'a, T> as core::iter::Iterator>::next":
+            src = iterator_source(it_.args[0].args[0], fa)
+            if src is not None:
+                v = src[0]
+                while v.op == "call" and v.args[0] in (INTO_ITER,) and v.args[1]:
+                    v = v.args[1][0]
+                L = None
+                if v.op == "call" and v.args[0] in ("core::slice::<impl [T]>::iter", "tinyvec::ArrayVec::<A>::iter", "util::data_vec::DataVec::<T, N>::iter") and v.args[1]:
+                    x = v.args[1][0]
+                    for _ in range(8):
+                        if x.op in ("ref", "mem", "memval"):
+                            x = x.args[0]
+                        elif x.op == "call" and x.args[0].endswith("as core::ops::Deref>::deref") and x.args[1]:
+                            x = x.args[1][0]
+                        else:
+                            break
+                    if x.op == "loc":
+                        L = x.args[1]
+                if L is not None:
+                    pushed = vec_pushed_values(L, fa)
+                    if pushed:
+                        from intervals import join
+                        acc = (1, 0)
+                        k = t.args[0].args[1]
+                        for pb, pv in pushed:
+                            comp = pv.args[0][k] if pv.op == "tuple" and isinstance(k, int) and k < len(pv.args[0]) else None
                             if comp is None:
                                 return None
                             i = iv.interval(comp, pb, depth + 1)
